@@ -123,7 +123,7 @@ PROPS.update({
     "C12": {
         "technique": "bounded-exhaustive enumeration of inputs and configurations against a reference model, plus stateless controlled-scheduler exploration of the items of the data-parallel batch path",
         "needs": ["harness", "cli"],
-        "parts": [ktmc("C12"), ktmc("C12batch"), lambda tier: __import__("hist").c_env_cpus(tier, ['kcgr']), lambda tier: __import__("hist").c_sink_fifo(tier, ['kcgr'])],
+        "parts": [ktmc("C12"), ktmc("C12batch"), lambda tier: __import__("hist").c_env_cpus(tier, ['kcgr']), lambda tier: __import__("hist").c_sink_fifo(tier, ['kcgr']), lambda tier: __import__("hist").c12_huge_output(tier)],
         "rule": "k 1..=7 x 5 square sizes x norm/raw: every string over {A,C,G,T,N} up to the stated length (k<=3) or "
                 "a structured family (k 4..=7): one triple per canonical column in rank order, coordinates bit-exact "
                 "= chaos-game end point of the column's k-mer text, frequency identical to the oligo vector and to "
